@@ -127,3 +127,41 @@ Theorem C03_hole_index_safe :
   forall (N : Num) (cfg : config) (fuel : nat) (A B : list (FillQueue.polygon N)) (op : operation),
   boolean_operation cfg fuel A B op <> Panic PIndexHoleIds.
 Proof. exact boolean_operation_hole_index_safe. Qed.
+
+(** the sweep loop terminates (exact instance, every pair of operands with finite coordinates):
+    every division point is an end point of an input edge or the common point of two
+    non-parallel input edges ([cand_of]); the number of allocated events plus twice the number
+    of (sub-segment, candidate strictly inside it) pairs never increases and a division adds two
+    events; every event is popped at most once.  So with a budget of [n0 * (1 + 2 * #candidates)],
+    [n0] the number of events after queue filling, the loop never stops for lack of budget — in
+    release builds the sweep stage returns. *)
+From Coq Require Import QArith.
+From GB Require Import NumQ Subdivide OnEdge EventBound Coverage SweepClosure ExactSweep.
+Theorem C03_sweep_terminates :
+  forall (A B : list (FillQueue.polygon NQ)),
+  (forall P, In P A -> finite_poly P) -> (forall P, In P B -> finite_poly P) ->
+  forall (cfg : config) (fuel : nat) (op : operation),
+  (nids (f_st (fill_queue A B op)) * (1 + 2 * length (cand_of (ops_edges A B))) <= fuel)%nat ->
+  subdivide cfg fuel (fill_queue A B op) op <> Panic PEventBudget.
+Proof. exact exact_sweep_terminates. Qed.
+
+Theorem C03_sweep_returns :
+  forall (A B : list (FillQueue.polygon NQ)),
+  (forall P, In P A -> finite_poly P) -> (forall P, In P B -> finite_poly P) ->
+  forall (cfg : config) (fuel : nat) (op : operation),
+  c_debug cfg = false ->
+  (nids (f_st (fill_queue A B op)) * (1 + 2 * length (cand_of (ops_edges A B))) <= fuel)%nat ->
+  exists st sorted n, subdivide cfg fuel (fill_queue A B op) op = Ok (st, sorted, n).
+Proof. exact exact_sweep_returns. Qed.
+
+(** on runs of the exact instance whose sweep runs to completion the closure hypothesis of the
+    contour-stage theorems is itself a theorem *)
+Theorem C03_exact_complete_run_index_safe :
+  forall (A B : list (FillQueue.polygon NQ)),
+  (forall P, In P A -> finite_poly P) -> (forall P, In P B -> finite_poly P) ->
+  forall (cfg : config) (fuel : nat) (op : operation),
+  complete_sweep cfg op -> boolean_operation cfg fuel A B op <> Panic PIndexResultEvents.
+Proof. exact exact_index_safe. Qed.
+
+Theorem C03_exact_example : exact_example_check = true.
+Proof. exact exact_example. Qed.
